@@ -24,3 +24,15 @@ fixed("C02", "0fa93ad", "tail-recovery/scanIndexFile/short-size prefix-is-cut-of
       "D13: scanIndexFile treated io.EOF from ReadAt as a clean end although 1-3 bytes of a size prefix had been read; the torn bytes stayed, later appends followed them and the next rescan lost flushed keys (repro/d13_torn_size_prefix_test.go.txt)")
 fixed("C03", "0fa93ad", "tail-recovery/scanIndexFile/short-size prefix-is-cut-off",
       "D13: torn index append of 1-3 bytes not cut off by the recovery scan (os.File.ReadAt reports the short read as io.EOF)")
+known("C06", "reloc-fresh/(*primaryGC).reapRecords/updateIndex",
+      "KF-2: relocation re-points the index unconditionally (primaryGC.updateIndex = Index.Update): schedule GC started; writer waits for <index>.free.gc to appear, then Put(K,v2); relocation of K's old record follows => Get(K)=v1 after an acknowledged v2. Also reachable sequentially after an interrupted hand-over (leftover .gc processed instead of the current freelist). Needs a compare-and-swap index API (exported UpdateIndexFunc signature changes): not a minimal patch")
+fixed("C04", "c0dfeb8", "retain/(*mhprimary.primaryGC).reapRecords/primary.Put/arg0",
+      "D3: reapRecords handed slices of a reused scratch buffer to the retaining primary Put; relocating two records made the first read back the second's bytes")
+fixed("C04", "c0dfeb8", "retain/(*mhprimary.primaryGC).reapRecords/primary.Put/arg1",
+      "D3: same, value slice")
+fixed("C04", "997fc5f", "erruse/mhprimary.deleteRecords/os.OpenFile/use-after-failed-open",
+      "D4: deleteRecords called file.Name() on the nil result of a failed os.OpenFile; a freelist entry naming a missing primary file panicked the GC goroutine")
+fixed("C04", "5666341", "gc-flush-first/(*primaryGC).gc/flush-before-handover",
+      "D12: freelist handed over before the primary was flushed")
+fixed("C04", "150dfab", "gc-not-current/(*mhprimary.primaryGC).gc/current-read-under-flushLock",
+      "D8a: primary GC loop bound read MultihashPrimary.fileNum without flushLock")
